@@ -39,6 +39,48 @@ def unmap(line, mapping):
     return [[back.get(tuple(p[0]), p[0]), p[1]] for p in line["post"]["G"]]
 
 
+def relayout(obj, rng):
+    """the same set of (selector, marking) pairs in another concrete layout of granular_markings: one entry per pair, overlapping entries, repeated entries,
+    another order.  Objects built only through add_markings are always in compressed form; real content is not."""
+    gms = [dict(g) for g in O.plain(dict(obj)).get("granular_markings", []) or []]
+    if not gms:
+        return obj
+    pairs = []
+    for g in gms:
+        key = "marking_ref" if "marking_ref" in g else "lang"
+        for s in g["selectors"]:
+            if (s, key, g[key]) not in pairs:
+                pairs.append((s, key, g[key]))
+    how = rng.choice(["exploded", "overlapping", "repeated", "shuffled"])
+    if how == "exploded":
+        new = [{"selectors": [s], k: m} for s, k, m in pairs]
+    elif how == "overlapping":
+        new = []
+        by = {}
+        for s, k, m in pairs:
+            by.setdefault((k, m), []).append(s)
+        for (k, m), ss in by.items():
+            if len(ss) >= 2:
+                new += [{"selectors": ss[:-1], k: m}, {"selectors": ss[1:], k: m}] if len(ss) > 2 else [{"selectors": ss, k: m}, {"selectors": [ss[rng.randrange(2)]], k: m}]
+            else:
+                new += [{"selectors": ss, k: m}, {"selectors": list(ss), k: m}]
+    elif how == "repeated":
+        new = gms + [dict(gms[rng.randrange(len(gms))])]
+    else:
+        new = list(gms)
+        rng.shuffle(new)
+        for g in new:
+            g["selectors"] = list(reversed(g["selectors"]))
+    try:
+        if isinstance(obj, dict):
+            d = copy.deepcopy(obj)
+            d["granular_markings"] = new
+            return d
+        return type(obj)(**dict({k: v for k, v in dict(obj).items() if k != "granular_markings"}, granular_markings=new))
+    except Exception:  # noqa  (a layout the library refuses is not this check's subject)
+        return obj
+
+
 def behaviours(chk, quick):
     sim = tlc.run("MC_MarkingsGen", "Sim_Markings", workers=1, simulate="num=%d" % (150 if quick else 3000), depth=11, seed=chk.seed, scratch=chk.scratch)
     behs = [json.loads(t[1]) for t in sim.marked("BEH")]
@@ -68,6 +110,8 @@ def pipeline(chk, prefix):
             name, obj, mapping = hs[bi % 2]       # language markings do not exist in STIX 2.0
         for i, step in enumerate(beh):
             st = map_step(step, mapping)
+            if rng.random() < 0.25:
+                obj = relayout(obj, rng)        # same abstract state, another concrete layout
             line, new = IM.observe(bi, obj, st, "method" if (bi + i) % 2 else "function")
             line["host"], line["hostkind"] = name, name
             line["stage"] = "S2"
@@ -130,6 +174,8 @@ def pipeline(chk, prefix):
             step = {"op": op, "ms": ms, "ss": ss, "ur": rng.random() < 0.8, "ul": rng.random() < 0.8, "inh": rng.random() < 0.4, "desc": rng.random() < 0.4}
             if op in ("add", "remove", "is_marked", "is_marked_any") or op.endswith("O"):
                 step["ur"] = step["ul"] = True
+            if rng.random() < 0.3:
+                obj = relayout(obj, rng)
             line, obj = IM.observe(100000 + h, obj, step, rng.choice(["method", "function"]))
             line["hostkind"] = "obj" if "obj" in kind else "dict"
             line["host"] = kind
@@ -150,6 +196,9 @@ def validate(chk, lines, prefix):
             rejected.add(i + r[0] - 1)
             if r[2].startswith(prefix):
                 report(chk, lines[i + r[0] - 1], r[2], lines[i + r[0] - 1].get("stage", "S3"))
+            elif prefix == "C07:" and r[2] == "C08:selector_addressing_something_rejected" and lines[i + r[0] - 1]["op"] not in ("construct", "parse"):
+                # the algebra is quantified over all selectors of the object: an operation refused on an existing selector has no effect where it must have one
+                report(chk, lines[i + r[0] - 1], "C07:operation_refused_on_existing_selector", lines[i + r[0] - 1].get("stage", "S3"))
             else:
                 chk.notes.setdefault("rejections_belonging_to_other_property", 0)
                 chk.notes["rejections_belonging_to_other_property"] += 1
